@@ -170,6 +170,71 @@ def shared_or_items(rng, quick):
     return items
 
 
+def nested_braceless_items(rng, quick):
+    """a brace-less body that is itself an `if` or a loop.  JMC attaches an `else` that follows
+    `if (a) if (b) x;` to the OUTER if (the statement after `if (a)` is the body, the next statement
+    starting with `else` continues the pending chain) — unlike JavaScript, where it belongs to the nearest
+    if.  The trees below follow JMC's reading; the chain as JMC delimits it must then run exactly one branch."""
+    items = []
+    cs = G.cond_src
+    for ci, (A, B, C) in enumerate([(G.atomic_cond("$a"), G.atomic_cond("$b"), G.atomic_cond("$c")),
+                                    (G.or_cond("$a", "$d"), G.or_cond("$b", "$d"), G.atomic_cond("$c")),
+                                    ([("f", G.rich("or_notand", ["$a", "$b", "$c", "$d"]))], G.atomic_cond("$b"),
+                                     [("f", G.rich("or_and_or", ["$c", "$a", "$b", "$d"], 1))])]):
+        for xi, (X, Xs) in enumerate([(("say", "x"), 'say "x";'), (("set", "$b", 0), "$b = 0;"), (("set", "$a", 0), "$a = 0;")]):
+            Y, Z = ("say", "y"), ("say", "z")
+            lv = "$L1"
+            loop_for = ("for", [("set", lv, 0)], [("atom", (lv, "<", 2))], [("add", lv, 1)], [X])
+            loop_wh = ("while", [("atom", (lv, "<", 2))], [("add", lv, 1), X])
+            shapes = [
+                (f'if ({cs(A)}) if ({cs(B)}) {Xs} else say "y";',
+                 [("if", [(A, [("if", [(B, [X])], None)])], [Y])]),
+                (f'if ({cs(A)}) if ({cs(B)}) if ({cs(C)}) {Xs}',
+                 [("if", [(A, [("if", [(B, [("if", [(C, [X])], None)])], None)])], None)]),
+                (f'if ({cs(A)}) say "y"; else if ({cs(B)}) if ({cs(C)}) {Xs} else say "z";',
+                 [("if", [(A, [Y]), (B, [("if", [(C, [X])], None)])], [Z])]),
+                (f'if ({cs(A)}) for ({lv} = 0; {lv} < 2; {lv} += 1) {{ {Xs} }} else say "y";',
+                 [("if", [(A, [loop_for])], [Y])]),
+                (f'{lv} = 0; if ({cs(A)}) say "y"; else while ({lv} < 2) {{ {lv} += 1; {Xs} }}',
+                 [("set", lv, 0), ("if", [(A, [Y])], [loop_wh])]),
+                (f'{lv} = 0; if ({cs(A)}) say "y"; else if ({cs(B)}) while ({lv} < 2) {{ {lv} += 1; {Xs} }}',
+                 [("set", lv, 0), ("if", [(A, [Y]), (B, [loop_wh])], None)]),
+                (f'if ({cs(A)}) {{ {Xs} }} else if ({cs(B)}) say "y"; else {{ say "z"; say "z"; }}',
+                 [("if", [(A, [X]), (B, [Y])], [Z, Z])]),
+            ]
+            for src, tree in shapes:
+                items.append(dict(prog=tree + [("say", "after")], cert=(ci + xi) % 2, stream="nested-braceless",
+                                  src=f'function f() {{\n    {src}\n    say "after";\n}}\n'))
+    return items
+
+
+def multi_function_items(rng, quick):
+    """packs of several user functions that call each other: the private-function numbering (if_else/k, while_loop/k,
+    for_loop/k) and the scratch scores are shared by the whole pack, and a called function runs its own chains
+    while the caller's chain is still open"""
+    items = []
+    o = lambda v, w: G.or_cond(v, w)
+    for order in (["f", "g"], ["g", "f"]):
+        for pos in range(3):
+            for gk in ("chain", "chain_noelse", "flip_chain"):
+                nm = G.Names()
+                if gk == "chain":
+                    g = [("if", [(o("$a", "$b"), [nm.say("g1"), nm.say("g1")]), (G.atomic_cond("$c"), [nm.say("g2")])], [nm.say("g3"), nm.say("g3")])]
+                elif gk == "chain_noelse":
+                    g = [("if", [(G.atomic_cond("$c"), [nm.say("g1"), nm.say("g1")]), (o("$a", "$b"), [nm.say("g2"), nm.say("g2")])], None)]
+                else:       # g runs a chain of its own and changes what f's chain tests
+                    g = [("if", [(G.atomic_cond("$a"), [("set", "$a", 0), ("set", "$b", 1), ("set", "$c", 1)]),
+                                 (o("$b", "$c"), [("set", "$a", 1), nm.say("g2")])], [("set", "$a", 1), ("set", "$c", 1), nm.say("g3")])]
+                bodies = [[nm.say("f1"), nm.say("f1")], [nm.say("f2"), nm.say("f2")], [nm.say("f3"), nm.say("f3")]]
+                bodies[pos] = [nm.say("pre"), ("call", "g"), nm.say("post")]
+                f = [("if", [(o("$a", "$c"), bodies[0]), (o("$b", "$a"), bodies[1])], bodies[2]), nm.say("after")]
+                items.append(dict(prog=f, more={"g": g + [nm.say("gend")]}, order=order, cert=pos % 2, stream="multi-function"))
+    for i in range(40 if quick else 400):
+        it = G.random_pack(rng, depth=2, loops=rng.random() < 0.5, helpers=rng.choice([1, 1, 2]))
+        items.append(dict(it, cert=i % 2, stream="multi-function-random"))
+    return items
+
+
 def rich_items(rng, quick):
     """rich conditions (G.RICH) in every condition position of a chain; expected lowering from the C03 model"""
     items = []
@@ -281,6 +346,8 @@ def gen_items(rng, tier):
               [("if", [(c_a, [say])], [])], [("if", [(c_o, []), (c_a, []), (c_a, [say, say])], None)]):
         items.append(dict(prog=p + [("say", "after")], cert=0, stream="empty-bodies"))
     # (iv) strengthening round 2
+    items += multi_function_items(rng, quick)
+    items += nested_braceless_items(rng, quick)
     items += rich_items(rng, quick)
     items += modifying_items(rng, quick)
     items += shared_or_items(rng, quick)
@@ -294,8 +361,11 @@ def main(tier: str) -> int:
         "Cases 1 and 2, as repaired by fixes/C04-last-elif-precommand.patch and the `_join_run` junction merge), of add_arrow_function / add_custom_private_function / "
         "get_count / call_func (datapack.py) and of the statement-by-statement lowering of a function body; tied to the "
         "tree by exact text equality of the caller and of every generated private function on the generated programs",
-        "conditions enter the model as (precommand lines, execute guards): the harness predicts that pair for the simple "
-        "condition shapes it generates (atoms, &&, ||-groups); how formulas are lowered in general is property C03",
+        "conditions enter the model as (precommand lines, execute guards); that pair is computed in Coq by property C03's model "
+        "(Run.C04.lowc = Model.Cond.parse_condition on the token list of the formula the source text was printed from), not predicted by "
+        "the harness; c03_gen.py prints formulas to source text / tokens (shared with C03's check)",
+        "brace-less bodies that are themselves an if/loop: the harness writes the tree as JMC reads it (a following `else` continues the "
+        "OUTER pending chain, unlike JavaScript's nearest-if rule); several user functions: compiled in source order with one numbering state",
         "outside the model: `if (...) expand {...}`, `$if`, switch (C06), body commands that are `execute` with sub-clauses "
         "other than if/unless score and store (not in MC/Syntax.v)",
         "mcvm.py + the source-level interpreter in c04_gen.py: untrusted, used only to search for failing inputs",
@@ -312,7 +382,11 @@ def main(tier: str) -> int:
              "{no else, 4 else kinds} x condition kinds {atomic, ||} x body kinds {1 cmd, 2 cmds, nested chain, flips tested variables}; "
              "every condition-kind tuple of 3 and 4 branches x {else, no else} with Latin + random body kinds; extra body kinds "
              "(single inlined nested if, 1-command flip, command + nested chain) under a second jmc.txt; random nested chains/loops to depth 3; "
-             "brace-less bodies; empty bodies.  distinct_nontrivial = distinct sources containing a chain with >= 2 parts (flag protocol exercised)",
+             "brace-less bodies; empty bodies.  Round 2: rich conditions (14 shapes: || under && under ||, !(a && b) after an alternative, 2-3 flags, "
+             "De Morgan, mixed atom spellings incl. truthiness and matches) in every condition position + random formulas to depth 4; bodies that "
+             "CHANGE the tested variables (single statements and blocks, every brace style, every branch position); chains / sequences / nests / loops in "
+             "which non-adjacent conditions share an identically written || part; brace-less bodies that are ifs or loops (dangling else); packs of "
+             "2-3 user functions calling each other.  distinct_nontrivial = distinct sources containing a chain with >= 2 parts (flag protocol exercised)",
         correspondence="text of the user function and of every private function == Model (compile_body), compared in Coq",
         disagreements_checked=len(st["bad"]), semantic_runs=st["n_runs"], semantic_runs_skipped_divergent=st["n_skipped"],
         semantic_failures=len(st["sem_fail"]), compile_errors_expected_by_model=st["n_errors"],
